@@ -1406,17 +1406,29 @@ class _MatchToIf(ast.NodeTransformer):
         chain: Optional[List[ast.stmt]] = None
         cases = list(node.cases)
         tail: List[ast.stmt] = []
-        if cases and isinstance(cases[-1].pattern, ast.MatchAs) and cases[-1].pattern.pattern is None and cases[-1].pattern.name is None and cases[-1].guard is None:
-            tail = cases[-1].body
+        if cases and isinstance(cases[-1].pattern, ast.MatchAs) and cases[-1].pattern.pattern is None and cases[-1].guard is None:
+            tail = list(cases[-1].body)
+            if cases[-1].pattern.name is not None:
+                # `case name:` binds the subject and always matches
+                tail.insert(0, ast.Assign(targets=[ast.Name(id=cases[-1].pattern.name, ctx=ast.Store())], value=copy.deepcopy(subj)))
             cases = cases[:-1]
         tests = []
         for c in cases:
-            t = test_of(c.pattern)
+            pat = c.pattern
+            bind = None
+            if isinstance(pat, ast.MatchAs) and pat.pattern is not None and pat.name is not None:
+                bind, pat = pat.name, pat.pattern            # `case C() as name:`
+            t = test_of(pat)
             if t is None:
                 return node
+            body_ = list(c.body)
+            if bind is not None:
+                if c.guard is not None and any(isinstance(x, ast.Name) and x.id == bind for x in ast.walk(c.guard)):
+                    return node
+                body_.insert(0, ast.Assign(targets=[ast.Name(id=bind, ctx=ast.Store())], value=copy.deepcopy(subj)))
             if c.guard is not None:
                 t = ast.BoolOp(op=ast.And(), values=[t, c.guard])
-            tests.append((t, c.body))
+            tests.append((t, body_))
         if not tests:
             return node
         orelse = tail
